@@ -23,7 +23,8 @@ static int run_case(const struct kase *k, struct res *r, int verbose) {
     char key[160];
     const rlang *L = &RL[k->li];
     const polyseed_lang *lang = polyseed_get_lang(k->li);
-    polyseed_enable_features(k->mask);
+    /* the enabling argument may carry higher bits; only the three low ones count */
+    polyseed_enable_features(k->mask | ((k->coin & 1) ? 0xFFFFFFF8u : (k->coin & 2) ? 0x10u : 0u));
     r->cases++;
     uint64_t dg = mix64(k->li * 4096 + k->coin, k->mask);
 #define FAIL(kind, ...) do { snprintf(key, sizeof key, "%s:%s:%s", ORACLE == 1 ? "c01" : "c03", kind, L->code); res_viol(r, key, rep, __VA_ARGS__); ledger_drop_all(); return 1; } while (0)
@@ -62,7 +63,9 @@ static int run_case(const struct kase *k, struct res *r, int verbose) {
             polyseed_str tmp; polyseed_encode(o, polyseed_get_lang((k->li + 3) % NL), k->coin ^ 0x155, tmp);
             polyseed_crypt(o, "x"); polyseed_free(o); r->calls += 4;
         }
-        polyseed_str again; size_t n2 = polyseed_encode(s, lang, k->coin, again); r->calls++;
+        /* encode again while the enabled mask is different (narrowed to nothing, then widened): the phrase is a function of the seed only */
+        polyseed_str again; polyseed_enable_features(0); size_t n2 = polyseed_encode(s, lang, k->coin, again); r->calls++;
+        if (n2 == n && !memcmp(again, b.out, n + 1)) { polyseed_enable_features(7); n2 = polyseed_encode(s, lang, k->coin, again); r->calls++; }
         polyseed_enable_features(k->mask);
         if (n2 != n || memcmp(again, b.out, n + 1)) FAIL("purity", "second encode of the same seed differs");
         polyseed_free(s);
